@@ -40,7 +40,7 @@ impl Tol {
 type V = Result<(), Outcome>;
 
 const PLANE_ROTATION_SIG: &str = "C18/components/plane-rotation-between-two-eigen-directions-with-exact-eigenvalues";
-const ITERATIVE_SIG: &str = "C18/iterative-solver-regime(p>500,5k<=p)/spectral-accuracy";
+const ITERATIVE_SIG: &str = "C18/iterative-solver-regime(p>500,5k<=p,k>=8)/spectral-accuracy";
 
 macro_rules! vio {
     ($sig:expr, $($json:tt)+) => {
@@ -559,7 +559,11 @@ fn check_model_groups(
     }
     // the iterative solver (LOBPCG) is only used for p > 500 and 5k <= p once the dense fallback is in
     // place; its spectral accuracy failures are a separate known defect class (see report)
-    let iterative = p > 500 && 5 * k <= p;
+    // the recorded non-convergence of the external LOBPCG has only ever been seen with blocks of 16
+    // and more vectors (inner Cholesky / eigen step of the 3k x 3k Gram matrix failing); small blocks
+    // (k < 8) are judged like every other fit, so that a defect in how linfa sets the solver up
+    // (scaling, centring, seeding) is not filed under that finding
+    let iterative = p > 500 && 5 * k <= p && k >= 8;
     req!(
         orth <= Tol::ORTH,
         if iterative && orth <= 1e-4 { ITERATIVE_SIG } else if whiten { "C18/components/whitened-rows-not-orthogonal-with-norm-sqrt(n-1)/sigma" } else { "C18/components/not-orthonormal" },
@@ -899,6 +903,15 @@ fn check_projection(
                     {"ctx": ctxj, "data": which, "layout": lname, "row": i, "col": j, "got": zl[[i, j]], "standard_layout": z[[i, j]], "tol": 2.0 * tol});
             }
         }
+    }
+    // the target buffer of predict_inplace is an output: what it held before must not matter
+    {
+        use linfa::traits::PredictInplace;
+        let mut buf = Array2::<f64>::from_elem(z.dim(), 12.5);
+        guarded(|| model.predict_inplace(x, &mut buf))
+            .map_err(|e| violated("C18/predict/panic", json!({"ctx": ctxj, "data": which, "call": "predict_inplace into a used buffer", "panic": e})))?;
+        req!(buf == z, "C18/predict/inplace-depends-on-the-buffer-content", {"ctx": ctxj, "data": which,
+            "largest_difference": buf.iter().zip(z.iter()).map(|(a, b)| (a - b).abs()).fold(0.0f64, f64::max)});
     }
     let zt = guarded(|| model.transform(DatasetBase::from(x.clone())))
         .map_err(|e| violated("C18/transform/panic", json!({"ctx": ctxj, "data": which, "panic": e})))?;
@@ -1380,7 +1393,7 @@ pub fn run(ctx: &Ctx) {
         let kind = [6usize, 5, 2, 0, 3, 1][(c.idx % 6) as usize];
         let p = 501 + c.rng.gen_range(0..40usize);
         let n = p + 1 + if c.idx % 2 == 0 { c.rng.gen_range(150..260) } else { c.rng.gen_range(0..200) };
-        let d = Dress { off: c.rng.gen_range(0..=2), cs: 0.0, gs: *gen::pick(&mut c.rng, &[0, 0, -3, 3]) };
+        let d = Dress { off: *gen::pick(&mut c.rng, &[0, 1, 2, 4, 6]), cs: 0.0, gs: *gen::pick(&mut c.rng, &[0, 0, -3, 3]) };
         let mut x = base_matrix(&mut c.rng, kind, n, p);
         dress(&mut c.rng, &mut x, d);
         let desc = format!("{} off={} cs={:.1} gs={}", KINDS[kind], d.off, d.cs, d.gs);
